@@ -63,14 +63,22 @@ def _work(task):
         err = traceback.format_exc()
         n_exits = n_unw = 0
         digest = {}
+    rp = sorted(specs.props_of_root(b))
+    vjs = [v.to_json() for v in E.violations]
+    for v in vjs:
+        v['root_props'] = rp
     return {
         'cfg': cfg,
         'root': bid,
+        'root_key': list(specs.root_key(b)),
+        'root_props': rp,
         'kind': roots_mod.root_kind(b),
         'span': b.span,
-        'violations': [v.to_json() for v in E.violations],
+        'violations': vjs,
         'n_oblig': dict(E.n_oblig),
         'n_ok': dict(E.n_ok),
+        'n_oblig_p': dict(E.n_oblig_p),
+        'n_ok_p': dict(E.n_ok_p),
         'samples': {k: v for k, v in E.samples.items()},
         'stats': dict(E.stats),
         'cover': sorted('%s|%s' % c for c in E.cover),
@@ -112,6 +120,8 @@ def analyse_configs(paths, jobs=None, only=None):
             'violations': [v for r in rs for v in r['violations']],
             'n_oblig': collections.Counter(),
             'n_ok': collections.Counter(),
+            'n_oblig_p': collections.Counter(),
+            'n_ok_p': collections.Counter(),
             'stats': collections.Counter(),
             'wall': wall,
             'n_bodies': len(f.bodies),
@@ -119,6 +129,8 @@ def analyse_configs(paths, jobs=None, only=None):
         for r in rs:
             m['n_oblig'].update(r['n_oblig'])
             m['n_ok'].update(r['n_ok'])
+            m['n_oblig_p'].update(r.get('n_oblig_p', {}))
+            m['n_ok_p'].update(r.get('n_ok_p', {}))
             m['stats'].update(r['stats'])
         merged[c] = m
     return facts, merged
